@@ -19,6 +19,7 @@ def run(res):
     if res.broken:
         n = max(n, 1500)      # failing-input search on the implementation
     pc.pool_check(res, 'C05', n, focus=FOCUS)
+    pc.real_scenarios(res, 'C05', [dict(kind='hard_timeout', n=1, hard=1), dict(kind='hard_timeout', n=2, hard=1)] if res.tier == 'quick' else [dict(kind='hard_timeout', n=n, hard=h) for n in (1, 2, 4) for h in (1, 2)])
     res.assumptions += pc_assumptions()
 
 
